@@ -224,7 +224,7 @@ class EmbeddedGate(ComposedGate):
         See :class:`~bqskit.ir.gate.Gate` for more info.
         """
         if hasattr(self, 'utry'):
-            return np.array([])
+            return np.zeros((0, self.dim, self.dim), dtype=np.complex128)
 
         G = self.gate.get_grad(params)
         G_embed = []
